@@ -195,6 +195,13 @@ def gen_expr(full, batch=16):
     (Lit('A', x, y), Eq(V('r'), ('rec', (('a', x), ('b', ('rec', (('c', y),)))))), Eq(V('p'), ('fld', V('r'), 'a')), Eq(V('q'), ('fld', ('fld', V('r'), 'b'), 'c'))),
     (Lit('A', x, y), Eq(V('l'), ('list', (x, y))), ('in', V('p'), V('l')), Eq(V('q'), Call('Size', V('l')))),
     (Lit('A', x, y), ('in', V('p'), ('list', (x, y))), ('in', V('q'), ('list', (V('p'), N(1))))),
+    # a variable bound to a compound expression and read more than once (shared sub-tree in the compiler)
+    (Lit('A', x, y), Eq(V('r'), ('if', Bin('>', x, N(1)), ('rec', (('lo', Bin('-', x, N(1))), ('hi', Bin('+', x, N(1))))), ('rec', (('lo', N(0)), ('hi', N(10)))))), Eq(V('p'), ('fld', V('r'), 'lo')), Eq(V('q'), ('fld', V('r'), 'hi'))),
+    (Lit('A', x, y), Eq(V('r'), ('if', Bin('<', x, y), ('rec', (('lo', x), ('hi', y))), ('if', Bin('==', x, y), ('rec', (('lo', N(7)), ('hi', N(8)))), ('rec', (('lo', y), ('hi', x)))))), Eq(V('q'), ('fld', V('r'), 'hi')), Eq(V('p'), Bin('+', ('fld', V('r'), 'lo'), ('fld', V('r'), 'hi')))),
+    (Lit('A', x, y), Eq(V('l'), ('if', Bin('>', x, N(1)), ('list', (x,)), ('list', (y, x)))), Eq(V('p'), Call('Size', V('l'))), Eq(V('q'), ('elem', V('l'), N(0)))),
+    (Lit('A', x, y), Eq(V('r'), ('rec', (('a', Bin('+', x, y)), ('b', ('rec', (('c', y),)))))), Eq(V('p'), Bin('*', ('fld', V('r'), 'a'), ('fld', V('r'), 'a'))), Eq(V('q'), Bin('+', ('fld', ('fld', V('r'), 'b'), 'c'), ('fld', V('r'), 'a')))),
+    (Lit('A', x, y), Eq(V('s'), Comb('Sum', z, (Lit('A', x, z),))), Eq(V('p'), Bin('+', V('s'), V('s'))), Eq(V('q'), ('if', Bin('>', V('s'), N(2)), V('s'), N(0)))),
+    (Lit('A', x, y), Eq(V('w'), ('if', Bin('>', x, y), x, y)), Eq(V('p'), Bin('*', V('w'), V('w'))), Eq(V('q'), ('if', Bin('==', V('w'), x), V('w'), Bin('-', N(0), V('w'))))),
   ]:
     yield Case('EXPR', Program([R('T', V('p'), V('q'), body=body)]), ['T'])
 
@@ -608,7 +615,7 @@ def c03_cases(thorough):
         comps = sorted({ev.component(p) for p in rec_preds if ev.component(p)}, key=sorted)
         # annotate the first member of every component; in thorough also each other member of the first component
         anns = [[sorted(c)[0] for c in comps]]
-        if thorough and comps and len(comps[0]) > 1 and depth in (2, 21):
+        if comps and len(comps[0]) > 1 and (depth in (2, 21) if thorough else (depth == 2 or (depth == 21 and cost == 'lin'))):
           anns += [[m] + [sorted(c)[0] for c in comps[1:]] for m in sorted(comps[0])[1:]]
       for ann in anns:
         stmts = list(rules)
